@@ -13,7 +13,7 @@ RULE = ("Differential: each seeded doer forest (program space of C01 without rea
         "noise tasks (sleep(0) / timed sleeps) and, in half the cases, a seeded permutation of every ready batch. Oracle: "
         "identical full event traces (enter/recur with tymes/clean/cease/abort/exit, cycle boundaries, extend/remove "
         "calls), completion cycle, final tyme, done flags of Doist and every doer, forced-exit order, and the same "
-        "exception type out of the run. Non-trivial: >= 2 doers, >= 3 cycles, >= 1 noise task and >= 1 loop iteration "
+        "exception type out of the run. Tocks include 0.0 (everything as soon as possible, tyme stands still). Non-trivial: >= 2 doers, >= 3 cycles, >= 1 noise task and >= 1 loop iteration "
         "in which the ready queue held more than one handle. Distinct: digest of program + noise.")
 COMPONENTS = dict(real=["Doist.ado", "Doist.do", "AsyncTimer (constructed)", "asyncio Task/Future/sleep machinery", "all doer kinds"],
                   stub=["asyncio event loop selector/clock (VLoop: virtual time, seeded ready order)"])
